@@ -129,7 +129,7 @@ CLAIMED = {
              "bytes (all values below 256^w, incl. bit 63), every other ReadDTCInformation reply group (snapshot identification, snapshots by DTC / by record number with per-DID codecs, "
              "extended data by DTC / by record number, WWH-OBD, fault counters, user-defined-memory variants), ReadDataByIdentifier with fixed-length codecs, RequestFileTransfer for every "
              "mode of operation, Authentication with and without algorithm indicator. The simple services and IO control are modelled line by line and tied by the correspondence suite. "
-             "Tied by semantic reply values (field minima/maxima, 0..N records, DID sizes 1..8, per-DTC size dict) encoded by an independent reference encoder, fed to the real client and to the model.",
+             "Tied by semantic reply values (field minima/maxima, 0..N records, DID sizes 1..8, per-DTC size dict) encoded by an independent reference encoder, fed to the real client and to the model. Call level (Props/C02Call): callWith_delivers — for any client method, if the final reply is a valid positive response of the request's service whose data the method's interpretation accepts with value v and every arrival (any number of response-pending replies first) falls inside the window of the wait it answers, the call returns v, whatever arrives afterwards; instantiated with the C01 frame theorems and the decode∘encode theorems for ReadDataByIdentifier, IO control and RequestDownload / Upload.",
         design_ref='DESIGN.md §3 C02',
         technique='Lean 4 proof (list induction over record lists, toBE/fromBE lemmas) + differential correspondence with a reference encoder'),
     'C03': dict(
@@ -141,7 +141,7 @@ CLAIMED = {
              "parameter, mode of operation, data format at its variable offset, authentication task, format byte / address / size in the transmitted widths, sub-function, memory selection, "
              "functional group, record numbers incl. the record-number byte of 0x05 / 0x16 replies without any DTC, snapshot DTC number). Tied by an echo-mutation suite on the real client: each "
              "echoed field of well-formed replies replaced by every other byte value / all bit flips and boundary values (model and client must agree, client must refuse), and all 80 entry points x "
-             "every other first byte.",
+             "every other first byte. Call level for every family (Props/C03Call): callWith_accepts_only_answers — a client method returns a value only if the frame that went out is the request's payload up to the suppress bit (exactly the payload for a service without sub-function), some arrival is a valid positive response whose first byte is the request's first byte + 0x40, and the method's interpretation and echo checks accepted its data; corollaries with the concrete ISO frame and echoes for WriteDataByIdentifier, ReadDataByIdentifier, IO control, RequestFileTransfer, Authentication and ReadDTCInformation.",
         design_ref='DESIGN.md §3 C03',
         technique='Lean 4 proof (induction over arrival schedules; accept-implies-echo theorems per client method over a hand-written model) + single-field echo-mutation differential suite over all entry points',
         note=NOTE + ' The DTC number of extended-data replies (0x06/0x10/0x19) is not compared by the client and is not among the echoes the property lists: mutated and compared with the model, not required.'),
